@@ -1,6 +1,7 @@
 From Coq Require Import List NArith Bool.
 From V.gen Require Consts.
-From V.C20 Require Import Model Proofs.
+From V.common Require Protobuf.
+From V.C20 Require Import Model Proofs Bytes.
 Import ListNotations.
 Open Scope N_scope.
 From V.C20 Require Import Properties.
@@ -41,25 +42,35 @@ Check (C20_honest_accepted :
     digest (c_code c) d = Some (c_digest c) ->
     block_to_response D digest (prefix_to_bytes (prefix_of_cid c)) d = Some (c, d)).
 Check (C20_batches_partition :
-  forall (A : Type) (dlen elen : A -> N) (mb mm : N) (l : list A),
-    concat (sent_batches A dlen elen mb mm l) = filter (fits A dlen elen mb mm) l).
+  forall (A : Type) (dlen elen : A -> N) (mlen : N -> N) (mb mm : N),
+    (forall x y, x <= y -> mlen x <= mlen y) ->
+    forall l : list A,
+      concat (sent_batches A dlen elen mlen mb mm l) = filter (fits A dlen elen mlen mb mm) l).
 Check (C20_batches_bounds :
-  forall (A : Type) (dlen elen : A -> N) (mb mm : N) (l : list A),
-    Forall (fun b => b <> [] /\ sum (map dlen b) <= mb /\ message_len A elen b <= mm)
-           (sent_batches A dlen elen mb mm l)).
+  forall (A : Type) (dlen elen : A -> N) (mlen : N -> N) (mb mm : N),
+    (forall x y, x <= y -> mlen x <= mlen y) ->
+    forall l : list A,
+      Forall (fun b => b <> [] /\ sum (map dlen b) <= mb /\ message_len A elen mlen b <= mm)
+             (sent_batches A dlen elen mlen mb mm l)).
 Check (C20_no_message_dropped :
-  forall (A : Type) (dlen elen : A -> N) (mb mm : N) (l : list A),
-    sent_batches A dlen elen mb mm l = all_batches A dlen elen mb mm l).
+  forall (A : Type) (dlen elen : A -> N) (mlen : N -> N) (mb mm : N),
+    (forall x y, x <= y -> mlen x <= mlen y) ->
+    forall l : list A,
+      sent_batches A dlen elen mlen mb mm l = all_batches A dlen elen mlen mb mm l).
 Check (C20_loop_terminates :
-  forall (A : Type) (dlen elen : A -> N) (mb mm : N) (l : list A) (n : nat),
-    (length l < n)%nat -> batches A dlen elen mb mm n l = all_batches A dlen elen mb mm l).
+  forall (A : Type) (dlen elen : A -> N) (mlen : N -> N) (mb mm : N),
+    (forall x y, x <= y -> mlen x <= mlen y) ->
+    forall (l : list A) (n : nat),
+      (length l < n)%nat -> batches A dlen elen mlen mb mm n l = all_batches A dlen elen mlen mb mm l).
 Check (C20_batch_maximal :
-  forall (A : Type) (dlen elen : A -> N) (mb mm : N) (l : list A) tot msg b r,
-    take_batch A dlen elen mb mm tot msg l = (b, r) ->
-    match r with
-    | [] => True
-    | a :: _ => mb < tot + sum (map dlen b) + dlen a \/ mm < msg + sum (map elen b) + elen a
-    end).
+  forall (A : Type) (dlen elen : A -> N) (mlen : N -> N) (mb mm : N),
+    (forall x y, x <= y -> mlen x <= mlen y) ->
+    forall (l : list A) tot acc b r,
+      take_batch A dlen elen mlen mb mm tot acc l = (b, r) ->
+      match r with
+      | [] => True
+      | a :: _ => mb < tot + sum (map dlen b) + dlen a \/ mm < mlen (acc + sum (map elen b) + elen a)
+      end).
 Check (C20_default_partition :
   forall l,
     concat (send_response_blocks Consts.BITSWAP_MAX_BATCH_SIZE Consts.BITSWAP_MAX_MESSAGE_SIZE l) =
@@ -67,22 +78,22 @@ Check (C20_default_partition :
 Check (C20_default_bounds :
   forall l,
     Forall (fun b => b <> [] /\ sum (map sb_dlen b) <= Consts.BITSWAP_MAX_BATCH_SIZE /\
-                     message_len sblock sb_elen b <= Consts.BITSWAP_MAX_MESSAGE_SIZE)
+                     message_len sblock sb_elen blk_mlen b <= Consts.BITSWAP_MAX_MESSAGE_SIZE)
            (send_response_blocks Consts.BITSWAP_MAX_BATCH_SIZE Consts.BITSWAP_MAX_MESSAGE_SIZE l)).
 Check (C20_empty_message_const :
   EMPTY_MESSAGE_LEN = Consts.BITSWAP_EMPTY_MESSAGE_SIZE).
 Check (C20_payload_bound_insufficient :
   forall mb mm, 10 <= mm ->
     exists l : list sblock,
-      Forall (fun b => fits sblock sb_dlen sb_elen mb mm b = true) l /\
+      Forall (fun b => fits sblock sb_dlen sb_elen blk_mlen mb mm b = true) l /\
       sum (map sb_dlen l) <= mb /\
-      mm < message_len sblock sb_elen l).
+      mm < message_len sblock sb_elen blk_mlen l).
 Check (C20_presences_partition :
   forall (mm : N) (l : list spres),
-    concat (send_response_presences mm l) = filter (fits spres (fun _ => 0) sp_elen 0 mm) l).
+    concat (send_response_presences mm l) = filter (fits spres (fun _ => 0) sp_elen blk_mlen 0 mm) l).
 Check (C20_presences_bounds :
   forall (mm : N) (l : list spres),
-    Forall (fun b => b <> [] /\ sum (map (fun _ => 0) b) <= 0 /\ message_len spres sp_elen b <= mm)
+    Forall (fun b => b <> [] /\ sum (map (fun _ => 0) b) <= 0 /\ message_len spres sp_elen blk_mlen b <= mm)
            (send_response_presences mm l)).
 Check (C20_default_presences_all_sent :
   forall l, Forall (fun p => (length (c_digest (sp_cid p)) <= 64)%nat) l ->
@@ -90,14 +101,14 @@ Check (C20_default_presences_all_sent :
 Check (C20_unsplit_presences_insufficient :
   forall mm, 42 <= mm ->
     exists l : list spres,
-      Forall (fun p => fits spres (fun _ => 0) sp_elen 0 mm p = true) l /\
-      mm < message_len spres sp_elen l).
+      Forall (fun p => fits spres (fun _ => 0) sp_elen blk_mlen 0 mm p = true) l /\
+      mm < message_len spres sp_elen blk_mlen l).
 Check (C20_response_lossless :
   forall mb mm ps bs,
     flat_map omsg_presences (action_msgs mb mm (AResponse ps bs)) =
-      filter (fits spres (fun _ => 0) sp_elen 0 mm) ps /\
+      filter (fits spres (fun _ => 0) sp_elen blk_mlen 0 mm) ps /\
     flat_map omsg_blocks (action_msgs mb mm (AResponse ps bs)) =
-      filter (fits sblock sb_dlen sb_elen mb mm) bs).
+      filter (fits sblock sb_dlen sb_elen blk_mlen mb mm) bs).
 Check (C20_response_within_codec_limit :
   forall mb mm ps bs, Forall (fun m => omsg_len m <= mm) (action_msgs mb mm (AResponse ps bs))).
 Check (C20_response_written_healthy :
@@ -169,3 +180,126 @@ Check (C20_only_requested_with_want_filter :
 Check (C20_no_duplicate_delivery_with_want_filter :
   forall (D : Type) (digest : N -> D -> option (list N)) ops want c,
     (cnt D c (client_run D digest want ops) <= memn c want + req_count D c ops)%nat).
+Check (C20_request_single_message :
+  forall mb mm cids,
+    action_msgs mb mm (ARequest cids) = [ORequest cids] /\ omsg_len (ORequest cids) = request_len cids).
+Check (C20_request_empty_is_one_message :
+  forall mb mm, action_msgs mb mm (ARequest []) = [ORequest []] /\ request_len [] = 2).
+Check (C20_default_request_fits :
+  forall cids, Forall (fun cw => (length (c_digest (fst cw)) <= 64)%nat) cids ->
+    N.of_nat (length cids) <= 32000 -> request_len cids <= Consts.BITSWAP_MAX_MESSAGE_SIZE).
+Check (C20_request_written_healthy :
+  forall mb mm cids, request_len cids <= mm ->
+    write_msgs mm None (action_msgs mb mm (ARequest cids)) = ([ORequest cids], 0, None, true)).
+Check (C20_unsplit_request_insufficient :
+  forall mm, 53 <= mm ->
+    exists cids : list (cid * want_type),
+      Forall (fun cw => req_mlen (sw_elen cw) <= mm) cids /\ mm < request_len cids).
+Check (C20_oversized_request_refused :
+  forall mb mm cids c, mm < request_len cids ->
+    write_msgs mm c (action_msgs mb mm (ARequest cids)) = ([], 0, c, false)).
+Check (C20_oversized_request_drops_queue :
+  forall (D : Type) (digest : N -> D -> option (list N)) mb mm s c2 cids acts, mm < request_len cids ->
+    ps_pend s = [] -> ps_opening s = false -> ps_conn s = 1 ->
+    run_peer D digest mb mm s (PSend (ARequest cids) :: map PSend acts ++ [POutOpen c2]) =
+    (set_out s None, [], [])).
+Check (C20_flush_stops_at_oversized_request :
+  forall mb mm c pre cids rest, Forall (action_ok mm) pre -> mm < request_len cids ->
+    write_actions mb mm None (pre ++ ARequest cids :: rest) =
+    (flat_map (action_msgs mb mm) pre, 0, None, false) /\
+    (pre = [] -> write_actions mb mm c (ARequest cids :: rest) = ([], 0, c, false))).
+Check (C20_action_within_codec_limit :
+  forall mb mm a, action_ok mm a -> Forall (fun m => omsg_len m <= mm) (action_msgs mb mm a)).
+Check (C20_request_bytes_length :
+  forall cids, request_len cids < 2 ^ 64 -> Protobuf.blen (request_bytes cids) = request_len cids).
+Check (C20_presences_bytes_length :
+  forall l, message_len spres sp_elen blk_mlen l < 2 ^ 64 ->
+    Protobuf.blen (presences_bytes l) = message_len spres sp_elen blk_mlen l).
+Check (C20_blocks_bytes_length :
+  forall l, message_len cblock cb_elen blk_mlen l < 2 ^ 64 ->
+    Protobuf.blen (blocks_bytes l) = message_len cblock cb_elen blk_mlen l).
+Check (C20_wire_blocks_bounded :
+  forall mb mm l, mm < 2 ^ 64 ->
+    Forall (fun batch => batch <> [] /\ sum (map cb_dlen batch) <= mb /\ Protobuf.blen (blocks_bytes batch) <= mm)
+           (send_response_cblocks mb mm l) /\
+    concat (send_response_cblocks mb mm l) = filter (fits cblock cb_dlen cb_elen blk_mlen mb mm) l).
+Check (C20_wire_presences_bounded :
+  forall mm l, mm < 2 ^ 64 ->
+    Forall (fun batch => batch <> [] /\ Protobuf.blen (presences_bytes batch) <= mm) (send_response_presences mm l)).
+Check (C20_wire_request_written_bounded :
+  forall mm c cids done part c' ok, mm < 2 ^ 64 ->
+    write_msgs mm c [ORequest cids] = (done, part, c', ok) ->
+    done = [] \/ (done = [ORequest cids] /\ Protobuf.blen (request_bytes cids) <= mm)).
+Check (C20_request_bytes_parse :
+  forall cids, request_len cids < 2 ^ 64 ->
+    Protobuf.pb_parse (request_bytes cids) = Protobuf.Ok (request_fields cids)).
+Check (C20_events_only_from_frames :
+  forall (D : Type) (digest : N -> D -> option (list N)) mb mm s e s' evs w,
+    peer_step D digest mb mm s e = (s', (evs, w)) -> evs <> [] ->
+    exists m, e = PInFrame m /\ ps_inb s = true /\ evs = msg_events D digest m /\ s' = s).
+Check (C20_written_within_limit :
+  forall (D : Type) (digest : N -> D -> option (list N)) mb mm s e s' evs done part,
+    peer_step D digest mb mm s e = (s', (evs, (done, part))) ->
+    Forall (fun m => omsg_len m <= mm) done).
+Check (C20_writes_only_on_send_or_open :
+  forall (D : Type) (digest : N -> D -> option (list N)) mb mm s e s' evs done part,
+    peer_step D digest mb mm s e = (s', (evs, (done, part))) ->
+    (done <> [] \/ part <> 0) -> (exists a, e = PSend a) \/ (exists c, e = POutOpen c)).
+Check (C20_queue_invariant :
+  forall (D : Type) (digest : N -> D -> option (list N)) mb mm es,
+    ps_inv (fst (fst (run_peer D digest mb mm ps_init es)))).
+Check (C20_no_stuck_queue :
+  forall (D : Type) (digest : N -> D -> option (list N)) mb mm es,
+    let s := fst (fst (run_peer D digest mb mm ps_init es)) in
+    ps_pend s <> [] -> ps_opening s = true \/ ps_dial s = true).
+Check (C20_answers_resolve :
+  forall (D : Type) (digest : N -> D -> option (list N)) mb mm s, ps_inv s ->
+    (ps_opening s = true ->
+       (forall c, ps_pend (fst (peer_step D digest mb mm s (POutOpen c))) = [] /\
+                  ps_opening (fst (peer_step D digest mb mm s (POutOpen c))) = false) /\
+       ps_pend (fst (peer_step D digest mb mm s POutFail)) = [] /\
+       ps_opening (fst (peer_step D digest mb mm s POutFail)) = false) /\
+    (ps_dial s = true ->
+       ps_pend (fst (peer_step D digest mb mm s PDialFail)) = [] /\
+       ps_dial (fst (peer_step D digest mb mm s PDialFail)) = false /\
+       (ps_conn s = 0 -> ps_opening (fst (peer_step D digest mb mm s PConnect)) = true /\
+                         ps_pend (fst (peer_step D digest mb mm s PConnect)) = ps_pend s)) /\
+    (ps_conn s <> 0 -> ps_pend (fst (peer_step D digest mb mm s PConnClose)) = [])).
+Check (C20_send_to_gone_peer_dropped :
+  forall (D : Type) (digest : N -> D -> option (list N)) mb mm s a,
+    ps_inv s -> ps_conn s <> 1 -> ps_pend s = [] -> (ps_mgr s = 0 \/ ps_mgr s = 2) -> ps_out s = None ->
+    peer_step D digest mb mm s (PSend a) = (s, ([], ([], 0)))).
+Check (C20_send_to_dialable_peer_parked :
+  forall (D : Type) (digest : N -> D -> option (list N)) mb mm s acts, Forall (action_ok mm) acts ->
+    ps_conn s = 0 -> ps_pend s = [] -> ps_out s = None -> ps_dial s = false -> ps_opening s = false ->
+    (ps_mgr s = 1 \/ ps_mgr s = 3) -> acts <> [] ->
+    let '(s1, _, done) := run_peer D digest mb mm s (map PSend acts ++ [PConnect; POutOpen None]) in
+    done = flat_map (action_msgs mb mm) acts /\ ps_pend s1 = [] /\ ps_out s1 = Some None).
+Check (C20_dial_failure_drops_parked :
+  forall (D : Type) (digest : N -> D -> option (list N)) mb mm s, ps_dial s = true ->
+    peer_step D digest mb mm s PDialFail = (set_pend (set_dial s false) [], ([], ([], 0)))).
+Check (C20_failed_send_retried_whole :
+  forall (D : Type) (digest : N -> D -> option (list N)) mb mm s c a done part c', action_ok mm a ->
+    ps_out s = Some c -> ps_pend s = [] -> ps_conn s = 1 ->
+    write_msgs mm c (action_msgs mb mm a) = (done, part, c', false) ->
+    let '(s1, _, written) := run_peer D digest mb mm s [PSend a; POutOpen None] in
+    written = done ++ action_msgs mb mm a /\ ps_out s1 = Some None /\ ps_pend s1 = []).
+Check (C20_node_peers_independent :
+  forall (D : Type) (digest : N -> D -> option (list N)) mb mm st p e q, q <> p ->
+    get_ps (fst (node_step D digest mb mm st (p, e))) q = get_ps st q).
+Check (C20_node_blocks_certified :
+  forall (D : Type) (digest : N -> D -> option (list N)) mb mm ops st p ev c d,
+    In (p, ev) (snd (fst (run_node_ops D digest mb mm st ops))) -> In (c, d) (event_blocks D ev) ->
+    digest (c_code c) d = Some (c_digest c) /\ cid_valid c /\ (length (c_digest c) <= 64)%nat).
+Check (C20_node_written_within_limit :
+  forall (D : Type) (digest : N -> D -> option (list N)) mb mm ops st,
+    Forall (fun pm => omsg_len (snd pm) <= mm) (snd (run_node_ops D digest mb mm st ops))).
+Check (C20_written_only_commanded :
+  forall (D : Type) (digest : N -> D -> option (list N)) mb mm es m,
+    In m (snd (run_peer D digest mb mm ps_init es)) ->
+    exists a, In (PSend a) es /\ In m (action_msgs mb mm a)).
+Check (C20_node_written_only_commanded :
+  forall (D : Type) (digest : N -> D -> option (list N)) mb mm ops st,
+    (forall q, ps_pend (get_ps st q) = []) ->
+    forall p m, In (p, m) (snd (run_node_ops D digest mb mm st ops)) ->
+      exists a, In (p, PSend a) ops /\ In m (action_msgs mb mm a)).
